@@ -195,7 +195,11 @@ func BuildWorld(s *Scenario, genesis refmodel.Hash) *World {
 			if at > 1 {
 				p = w.Honest[at-2].HashOf()
 			}
-			for i := 0; i < 5; i++ {
+			nOwn := 5
+			if ns.ForkLen > 0 {
+				nOwn = ns.ForkLen
+			}
+			for i := 0; i < nOwn; i++ {
 				h := w.mine(p, gen.BitsNormal, w.now-10+uint32(i))
 				chain = append(chain, h)
 				p = h.HashOf()
